@@ -140,7 +140,9 @@ def gen_cases(tier, rng):
         p = fill(max(0, ln - 2), ln)
         cases.append((mk_case("tpkt", 1, [bytes([0xc0, ln]) + p + b"\xaa"]),
                       ("fp:3:%s rest=%s" % (summ(p), summ(b"\xaa"))) if ln >= 2 else "err:InvalidSize rest=" + summ(p + b"\xaa")))
-    longs = (list(range(0, 300)) + [0x3ff, 0x400, 0x7ff, 0x800]) if quick else list(range(0, 2100)) + [0x3fff, 0x4000, 0x7ffe, 0x7fff]
+    # every power-of-two boundary of the 15-bit long-form length, in both tiers
+    pow2 = sorted(set(v for k in range(8, 15) for v in ((1 << k) - 1, 1 << k, (1 << k) + 1, (1 << k) + 2, (1 << k) + 3))) + [0x7ffe, 0x7fff]
+    longs = (list(range(0, 300)) + pow2) if quick else list(range(0, 2100)) + pow2
     for ln in longs:
         p = fill(max(0, ln - 3), ln % 256)
         cases.append((mk_case("tpkt", 1, [bytes([0x00, 0x80 | (ln >> 8)]), bytes([ln & 255]) + p + b"\xaa"]),
